@@ -58,6 +58,7 @@ CLASSES = (['tr-m-minus1:' + a for a in ('surf-tr', 'trcl-num', 'fill-num',
               if k not in ('sph', 'ell')]
            + ['facet-zero', 'facet-on-plain', 'fill-array-short',
               'fill-array-long', 'fill-array-surplus-is-tr',
+              'fill-array-short-with-parens', 'fill-four-ranges',
               'fill-array-long-by-repeat', 'fill-array-short-by-repeat',
               'imp-unequal', 'imp-unequal-same-tokens', 'imp-short',
               'lattice-arg-malformed']
@@ -354,6 +355,40 @@ def build_pair(case):
             [blat.fill.array[keep - 1]] * reps
         return deck, bad, (f'FILL array {" ".join(blat.fill.render_array)} '
                            f'expands to {keep + reps} entries instead of {size}')
+    if head in ('fill-array-short-with-parens', 'fill-four-ranges'):
+        from ..gen_surf import tr_card
+        from ..mcnp_ref import Motion
+        deck = (gen_lat.build_rect if rng.random() < 0.6 else
+                gen_lat.build_hex)(rng, rng.choice(['array-own', 'ortho-2d',
+                                                    'regular-6']))
+        lat = deck.cell(gen_lat.LAT_CELL)
+        if lat.fill.array is None or lat.fill.tr is not None or \
+                len(lat.fill.array) < 2:
+            return None
+        bad = copy.deepcopy(deck)
+        blat = bad.cell(gen_lat.LAT_CELL)
+        if head == 'fill-four-ranges':
+            blat.fill.ranges = list(blat.fill.ranges) + \
+                [(0, 0)] * rng.randint(1, 2)
+            return deck, bad, f'FILL with {len(blat.fill.ranges)} ranges'
+        # the array is short by 1 or 3 entries, and the missing numbers are
+        # those of a per-element transformation between parentheses
+        arr = [str(v) for v in blat.fill.array]
+        nmiss = 1 if len(arr) < 5 or rng.random() < 0.6 else 3
+        keep = arr[:len(arr) - nmiss]
+        trid = next((v for v in blat.fill.array if v), 1)
+        if trid not in [t.id for t in deck.trs]:
+            for dck in (deck, bad):
+                dck.trs.append(tr_card(rng, trid, Motion([0.3, 0.0, 0.0]),
+                                       '3'))
+        inner = [str(trid)] if nmiss == 1 else [str(trid), '0', '0']
+        inner[0] = '(' + inner[0]
+        inner[-1] += ')'
+        pos = rng.randint(1, len(keep))
+        blat.fill.render_array = keep[:pos] + inner + keep[pos:]
+        blat.fill.array = blat.fill.array[:len(keep)]
+        return deck, bad, ('FILL array ' + ' '.join(blat.fill.render_array)
+                           + f' for {len(arr)} elements')
     if head == 'fill-array-surplus-is-tr':
         # one or three entries too many, the first of which is the number of
         # an existing TR card (or a displacement): not a fill transformation
